@@ -405,5 +405,484 @@ theorem pseudoLegal_shape {p : Pos} {m : Move} (h : pseudoLegal p m = true) : Sh
       simp only [isCastle, hb]
       cases pc <;> simp at hk ⊢
 
+/-! ### counting across a move -/
+
+@[simp] theorem ind_none (f) : ind f none = 0 := rfl
+
+/-- The master counting equation: a move takes the mover's man `(pc, stm)` away, puts `(pc', stm)` down
+(`pc' = pc` unless promoting) and removes the captured man `cap` (never of the mover's colour; if it is
+a king then it stood on the destination and was attacked by the moved man). -/
+theorem count_apply {p : Pos} {m : Move} (hs : Shape p m) :
+    ∃ (pc pc' : Piece) (cap : Option (Piece × Color)),
+      p.board m.src = some (pc, p.stm) ∧
+      (pc' = pc ∨ (pc = .pawn ∧ pc' ≠ .pawn ∧ pc' ≠ .king)) ∧
+      (∀ x, cap ≠ some (x, p.stm)) ∧
+      (∀ c, cap = some (.king, c) → p.board m.dst = some (.king, c) ∧ attacks p m.src m.dst = true) ∧
+      ∀ f, count (apply p m) f + ind f (some (pc, p.stm)) + ind f cap = count p f + ind f (some (pc', p.stm)) := by
+  cases hs with
+  | normal pc pc' hsrc hdst hne hpc hatk hpawn hboard =>
+    refine ⟨pc, pc', p.board m.dst, hsrc, hpc, hdst, ?_, ?_⟩
+    · intro c hc
+      exact ⟨hc, hatk (by rw [hc]; simp)⟩
+    · intro f
+      rw [count_eq_cnt, count_eq_cnt, hboard]
+      have e1 := cnt_upd (upd p.board m.src none) f m.dst (some (pc', p.stm))
+      have e2 := cnt_upd p.board f m.src none
+      rw [upd_other _ _ (Ne.symm hne)] at e1
+      rw [hsrc] at e2
+      simp only [ind_none] at e2
+      omega
+  | ep q pc' hsrc hdst hq hqs hqd hne hpc hlast hdr hboard =>
+    refine ⟨.pawn, pc', some (.pawn, p.stm.other), hsrc, ?_, ?_, ?_, ?_⟩
+    · cases pc' <;> simp at hpc ⊢
+    · intro x hx
+      simp only [Option.some.injEq, Prod.mk.injEq] at hx
+      exact Color.other_ne _ hx.2
+    · intro c hc; simp at hc
+    · intro f
+      rw [count_eq_cnt, count_eq_cnt, hboard]
+      have e1 := cnt_upd (upd (upd p.board q none) m.src none) f m.dst (some (pc', p.stm))
+      have e2 := cnt_upd (upd p.board q none) f m.src none
+      have e3 := cnt_upd p.board f q none
+      rw [upd_other _ _ (Ne.symm hne), upd_other _ _ (Ne.symm hqd), hdst] at e1
+      rw [upd_other _ _ (Ne.symm hqs), hsrc] at e2
+      rw [hq] at e3
+      simp only [ind_none] at e1 e2 e3
+      omega
+  | castle r t hsrc hsrcr hsrcf hdst hr ht hrr htr hrs hrd hts htd htr' hne hboard =>
+    refine ⟨.king, .king, none, hsrc, Or.inl rfl, by simp, by simp, ?_⟩
+    intro f
+    rw [count_eq_cnt, count_eq_cnt, hboard]
+    have e1 := cnt_upd (upd (upd (upd p.board t (some (.rook, p.stm))) r none) m.src none) f m.dst (some (.king, p.stm))
+    have e2 := cnt_upd (upd (upd p.board t (some (.rook, p.stm))) r none) f m.src none
+    have e3 := cnt_upd (upd p.board t (some (.rook, p.stm))) f r none
+    have e4 := cnt_upd p.board f t (some (.rook, p.stm))
+    rw [upd_other _ _ (Ne.symm hne), upd_other _ _ (Ne.symm hrd), upd_other _ _ (Ne.symm htd), hdst] at e1
+    rw [upd_other _ _ (Ne.symm hrs), upd_other _ _ (Ne.symm hts), hsrc] at e2
+    rw [upd_other _ _ (Ne.symm htr'), hr] at e3
+    rw [ht] at e4
+    simp only [ind_none] at e1 e2 e3 e4 ⊢
+    omega
+
+@[simp] theorem ind_some (f) (v : Piece × Color) : ind f (some v) = if f v then 1 else 0 := rfl
+
+theorem ind_le_one (f v) : ind f v ≤ 1 := by unfold ind; split <;> omega
+
+theorem men_shrink {p : Pos} {m : Move} (h : pseudoLegal p m = true) (c : Color) :
+    count (apply p m) (·.2 == c) ≤ count p (·.2 == c) := by
+  obtain ⟨pc, pc', cap, _, _, _, _, he⟩ := count_apply (pseudoLegal_shape h)
+  have := he (·.2 == c)
+  simp only [ind_some] at this
+  omega
+
+theorem pawns_shrink {p : Pos} {m : Move} (h : pseudoLegal p m = true) (c : Color) :
+    count (apply p m) (· == (.pawn, c)) ≤ count p (· == (.pawn, c)) := by
+  obtain ⟨pc, pc', cap, _, hpc, _, _, he⟩ := count_apply (pseudoLegal_shape h)
+  have := he (· == (.pawn, c))
+  rcases hpc with hpc | ⟨_, hpc, _⟩
+  · subst hpc; omega
+  · have : ind (· == (Piece.pawn, c)) (some (pc', p.stm)) = 0 := by
+      simp only [ind_some, beq_iff_eq, Prod.mk.injEq, hpc, false_and, if_false]
+    omega
+
+/-- the number of kings of either colour is unchanged by a move that does not capture a king -/
+theorem kings_eq {p : Pos} {m : Move} (h : pseudoLegal p m = true)
+    (hk : ∀ c, p.board m.dst = some (.king, c) → attacks p m.src m.dst = false) (c : Color) :
+    count (apply p m) (· == (.king, c)) = count p (· == (.king, c)) := by
+  obtain ⟨pc, pc', cap, _, hpc, _, hcap, he⟩ := count_apply (pseudoLegal_shape h)
+  have := he (· == (.king, c))
+  have h1 : ind (· == (Piece.king, c)) (some (pc', p.stm)) = ind (· == (Piece.king, c)) (some (pc, p.stm)) := by
+    rcases hpc with hpc | ⟨h1, _, h2⟩
+    · rw [hpc]
+    · simp [h1, h2]
+  have h2 : ind (· == (Piece.king, c)) cap = 0 := by
+    cases hc : cap with
+    | none => rfl
+    | some v =>
+      obtain ⟨x, d⟩ := v
+      by_cases hx : x = .king
+      · subst hx
+        have := hcap d hc
+        rw [hk d this.1] at this
+        cases this.2
+      · simp [hx]
+  omega
+
+/-! ### `Valid` as a proposition -/
+
+structure ValidP (p : Pos) : Prop where
+  king : ∀ c, count p (· == (.king, c)) = 1
+  men : ∀ c, count p (·.2 == c) ≤ 16
+  pawns : ∀ c, count p (· == (.pawn, c)) ≤ 8
+  ck : ∀ c, p.castleK c = true →
+    (homeSq c 4).any (p.has · .king c) = true ∧ (homeSq c 7).any (p.has · .rook c) = true
+  cq : ∀ c, p.castleQ c = true →
+    (homeSq c 4).any (p.has · .king c) = true ∧ (homeSq c 0).any (p.has · .rook c) = true
+  noPawn : ∀ s, (p.board s).any (·.1 == .pawn) = true → s.rank ≠ 0 ∧ s.rank ≠ 7
+  notInCheck : inCheck p p.stm.other = false
+  ep : epValid p = true
+
+theorem valid_iff (p : Pos) : Valid p = true ↔ ValidP p := by
+  constructor
+  · intro h
+    simp only [Valid, List.all_cons, List.all_nil, Bool.and_true, Bool.and_eq_true, beq_iff_eq, decide_eq_true_eq,
+      Bool.or_eq_true, Bool.not_eq_true', List.all_eq_true, bne_iff_ne, ne_eq] at h
+    obtain ⟨⟨⟨⟨⟨⟨⟨⟨kw, mw⟩, pw⟩, ckw⟩, cqw⟩, ⟨⟨⟨kb, mb⟩, pb⟩, ckb⟩, cqb⟩, hnp⟩, hnc⟩, hep⟩ := h
+    refine ⟨?_, ?_, ?_, ?_, ?_, ?_, hnc, hep⟩
+    · intro c; cases c <;> assumption
+    · intro c; cases c <;> assumption
+    · intro c; cases c <;> assumption
+    · intro c hc
+      cases c
+      · rcases ckw with h | h
+        · rw [hc] at h; cases h
+        · exact h
+      · rcases ckb with h | h
+        · rw [hc] at h; cases h
+        · exact h
+    · intro c hc
+      cases c
+      · rcases cqw with h | h
+        · rw [hc] at h; cases h
+        · exact h
+      · rcases cqb with h | h
+        · rw [hc] at h; cases h
+        · exact h
+    · intro s hs
+      rcases hnp s (List.mem_finRange s) with h | h
+      · rw [hs] at h; cases h
+      · exact h
+  · intro h
+    simp only [Valid, List.all_cons, List.all_nil, Bool.and_true, Bool.and_eq_true, beq_iff_eq, decide_eq_true_eq,
+      Bool.or_eq_true, Bool.not_eq_true', List.all_eq_true, bne_iff_ne, ne_eq]
+    have hck : ∀ c, p.castleK c = false ∨
+        (homeSq c 4).any (p.has · .king c) = true ∧ (homeSq c 7).any (p.has · .rook c) = true := by
+      intro c
+      cases hc : p.castleK c
+      · exact Or.inl rfl
+      · exact Or.inr (h.ck c hc)
+    have hcq : ∀ c, p.castleQ c = false ∨
+        (homeSq c 4).any (p.has · .king c) = true ∧ (homeSq c 0).any (p.has · .rook c) = true := by
+      intro c
+      cases hc : p.castleQ c
+      · exact Or.inl rfl
+      · exact Or.inr (h.cq c hc)
+    refine ⟨⟨⟨⟨⟨⟨⟨⟨h.king _, h.men _⟩, h.pawns _⟩, hck _⟩, hcq _⟩, ⟨⟨⟨h.king _, h.men _⟩, h.pawns _⟩, hck _⟩, hcq _⟩, ?_⟩,
+      h.notInCheck⟩, h.ep⟩
+    intro s _
+    cases hs : (p.board s).any (·.1 == .pawn)
+    · exact Or.inl rfl
+    · exact Or.inr (h.noPawn s hs)
+
+/-! ### check depends only on the board; the king square -/
+
+theorem attacks_congr {p q : Pos} (h : p.board = q.board) (a b : Sq) : attacks p a b = attacks q a b := by
+  simp only [attacks, slides, pathClear, Pos.empty, h]
+
+theorem attackedBy_congr {p q : Pos} (h : p.board = q.board) (c : Color) (t : Sq) :
+    attackedBy p c t = attackedBy q c t := by
+  simp only [attackedBy, Pos.colorAt, attacks_congr h, h]
+
+theorem kingSq?_congr {p q : Pos} (h : p.board = q.board) (c : Color) : kingSq? p c = kingSq? q c := by
+  simp only [kingSq?, Pos.has, h]
+
+/-- `inCheck` depends only on the placement of the men. -/
+theorem inCheck_congr {p q : Pos} (h : p.board = q.board) (c : Color) : inCheck p c = inCheck q c := by
+  simp only [inCheck, kingSq?_congr h, attackedBy_congr h]
+
+theorem inCheck_mk (b stm ck cq ep c) (q : Pos) (h : b = q.board) :
+    inCheck ⟨b, stm, ck, cq, ep⟩ c = inCheck q c := inCheck_congr h c
+
+theorem kingSq?_of_unique {p : Pos} {c : Color} {s : Sq} (h1 : count p (· == (.king, c)) = 1)
+    (hs : p.board s = some (.king, c)) : kingSq? p c = some s := by
+  unfold kingSq?
+  cases hf : allSq.find? (fun s => p.has s .king c) with
+  | none =>
+    rw [List.find?_eq_none] at hf
+    have := hf s (List.mem_finRange s)
+    simp [Pos.has, hs] at this
+  | some k =>
+    have hk := List.find?_some hf
+    simp only [Pos.has, beq_iff_eq] at hk
+    by_cases hks : k = s
+    · rw [hks]
+    · exfalso
+      have e1 := cnt_upd p.board (· == (.king, c)) k none
+      have e2 := cnt_upd (upd p.board k none) (· == (.king, c)) s none
+      rw [upd_other _ _ (Ne.symm hks), hs] at e2
+      rw [hk] at e1
+      rw [count_eq_cnt] at h1
+      simp only [ind_none, ind_some, beq_self_eq_true, if_true] at e1 e2
+      omega
+
+theorem inCheck_of_attack {p : Pos} {c : Color} {a k : Sq} {pc : Piece}
+    (h1 : count p (· == (.king, c)) = 1) (hk : p.board k = some (.king, c))
+    (ha : p.board a = some (pc, c.other)) (hatk : attacks p a k = true) : inCheck p c = true := by
+  unfold inCheck
+  rw [kingSq?_of_unique h1 hk]
+  simp only [attackedBy, List.any_eq_true, Bool.and_eq_true, beq_iff_eq]
+  exact ⟨a, List.mem_finRange a, by simp [Pos.colorAt, ha], hatk⟩
+
+/-! ### the clauses of `Valid` after a move -/
+
+theorem Shape.src_dst {p : Pos} {m : Move} (hs : Shape p m) :
+    ∃ pc, p.board m.src = some (pc, p.stm) ∧ ∀ x, p.board m.dst ≠ some (x, p.stm) := by
+  cases hs with
+  | normal pc pc' hsrc hdst => exact ⟨pc, hsrc, hdst⟩
+  | ep q pc' hsrc hdst => exact ⟨_, hsrc, by simp [hdst]⟩
+  | castle r t hsrc _ _ hdst => exact ⟨_, hsrc, by simp [hdst]⟩
+
+theorem Color.eq_other_of_ne {c d : Color} (h : c ≠ d) : c = d.other := by
+  cases c <;> cases d <;> simp [Color.other] at h ⊢
+
+/-- (a) no king is captured: in a valid position a pseudo-legal move never lands on a king. -/
+theorem no_king_capture {p : Pos} {m : Move} (hv : ValidP p) (h : pseudoLegal p m = true) (c : Color) :
+    p.board m.dst = some (.king, c) → attacks p m.src m.dst = false := by
+  intro hk
+  obtain ⟨pc, hsrc, hdst⟩ := (pseudoLegal_shape h).src_dst
+  have hc : c = p.stm.other := Color.eq_other_of_ne (fun e => hdst .king (by rw [← e]; exact hk))
+  subst hc
+  cases hatk : attacks p m.src m.dst with
+  | false => rfl
+  | true =>
+    have := inCheck_of_attack (hv.king _) hk (by simpa using hsrc) hatk
+    rw [hv.notInCheck] at this
+    cases this
+
+theorem step_kings {p : Pos} {m : Move} (hv : ValidP p) (h : pseudoLegal p m = true) (c : Color) :
+    count (apply p m) (· == (.king, c)) = 1 := by
+  rw [kings_eq h (no_king_capture hv h) c]
+  exact hv.king c
+
+theorem upd_apply (b : Bd) (s x : Sq) (v) : upd b s v x = if x = s then v else b x := rfl
+
+/-- (c) no pawn on the first or last rank after the move -/
+theorem step_noPawn {p : Pos} {m : Move} (hv : ValidP p) (h : pseudoLegal p m = true) (s : Sq)
+    (hs : ((apply p m).board s).any (·.1 == .pawn) = true) : s.rank ≠ 0 ∧ s.rank ≠ 7 := by
+  have key : ∀ c, p.board m.src = some (.pawn, c) → m.src.rank ≠ 0 ∧ m.src.rank ≠ 7 := by
+    intro c hc; exact hv.noPawn m.src (by simp [hc])
+  have hb := Sq.rank_bounds s
+  have hb' := Sq.rank_bounds m.src
+  cases pseudoLegal_shape h with
+  | normal pc pc' hsrc hdst hne hpc hatk hpawn hboard =>
+    rw [hboard, upd_apply, upd_apply] at hs
+    split at hs
+    · rename_i e; subst e
+      simp only [Option.any_some, beq_iff_eq] at hs
+      subst hs
+      have hpc0 : pc = .pawn := by
+        rcases hpc with h | h
+        · exact h.symm
+        · exact absurd rfl h.2.1
+      subst hpc0
+      have hk := key _ hsrc
+      obtain ⟨h1, h2⟩ := hpawn rfl
+      have h1 := h1 rfl
+      have h2 : m.dst.rank - m.src.rank = p.stm.fwd ∨
+          (m.dst.rank - m.src.rank = 2 * p.stm.fwd ∧ m.src.rank = p.stm.pawnRank) := by
+        rcases h2 with h2 | h2
+        · exact Or.inl h2
+        · exact Or.inr ⟨h2.1, h2.2.1⟩
+      cases hc : p.stm <;>
+        simp only [hc, Color.fwd, Color.pawnRank, Color.homeRank, Color.lastRank, Color.other] at h1 h2 <;>
+        constructor <;> omega
+    · split at hs
+      · cases hs
+      · exact hv.noPawn s hs
+  | ep q pc' hsrc hdst hq hqs hqd hne hpc hlast hdr hboard =>
+    rw [hboard, upd_apply, upd_apply, upd_apply] at hs
+    split at hs
+    · rename_i e; subst e
+      simp only [Option.any_some, beq_iff_eq] at hs
+      subst hs
+      have hk := key _ hsrc
+      have h1 := hlast rfl
+      cases hc : p.stm <;>
+        simp only [hc, Color.fwd, Color.homeRank, Color.lastRank, Color.other] at h1 hdr <;>
+        constructor <;> omega
+    · split at hs
+      · cases hs
+      · split at hs
+        · cases hs
+        · exact hv.noPawn s hs
+  | castle r t hsrc hsrcr hsrcf hdst hr ht hrr htr hrs hrd hts htd htr' hne hboard =>
+    rw [hboard, upd_apply, upd_apply, upd_apply, upd_apply] at hs
+    split at hs
+    · simp at hs
+    · split at hs
+      · cases hs
+      · split at hs
+        · cases hs
+        · split at hs
+          · simp at hs
+          · exact hv.noPawn s hs
+
+theorem apply_castleK {p : Pos} {m : Move} {d : Color} : (apply p m).castleK d = true ↔
+    p.castleK d = true ∧ homeSq d 4 ≠ some m.src ∧ homeSq d 4 ≠ some m.dst ∧
+      homeSq d 7 ≠ some m.src ∧ homeSq d 7 ≠ some m.dst := by
+  simp only [apply, Bool.and_eq_true, Bool.not_eq_true', Bool.or_eq_false_iff, beq_eq_false_iff_ne, ne_eq]
+  constructor
+  · rintro ⟨⟨a, b, c⟩, d, e⟩; exact ⟨a, b, c, d, e⟩
+  · rintro ⟨a, b, c, d, e⟩; exact ⟨⟨a, b, c⟩, d, e⟩
+
+theorem apply_castleQ {p : Pos} {m : Move} {d : Color} : (apply p m).castleQ d = true ↔
+    p.castleQ d = true ∧ homeSq d 4 ≠ some m.src ∧ homeSq d 4 ≠ some m.dst ∧
+      homeSq d 0 ≠ some m.src ∧ homeSq d 0 ≠ some m.dst := by
+  simp only [apply, Bool.and_eq_true, Bool.not_eq_true', Bool.or_eq_false_iff, beq_eq_false_iff_ne, ne_eq]
+  constructor
+  · rintro ⟨⟨a, b, c⟩, d, e⟩; exact ⟨a, b, c, d, e⟩
+  · rintro ⟨a, b, c, d, e⟩; exact ⟨⟨a, b, c⟩, d, e⟩
+
+theorem homeRank_ne {c d : Color} (h : c ≠ d) : c.homeRank ≠ d.homeRank := by
+  cases c <;> cases d <;> simp [Color.homeRank] at h ⊢
+
+/-- a man (not a pawn) on a home-rank square of colour `d` that is neither source nor destination
+stays, provided the move does not start on `d`'s king home square -/
+theorem home_preserved {p : Pos} {m : Move} (hs : Shape p m) {d : Color} {f : Int} {s : Sq} {pc : Piece}
+    (hk : homeSq d 4 ≠ some m.src) (hh : homeSq d f = some s) (h1 : s ≠ m.src) (h2 : s ≠ m.dst)
+    (hb : p.board s = some (pc, d)) (hpc : pc ≠ .pawn) : (apply p m).board s = some (pc, d) := by
+  cases hs with
+  | normal pc0 pc' hsrc hdst hne hpc hatk hpawn hboard =>
+    rw [hboard, upd_other _ _ h2, upd_other _ _ h1, hb]
+  | ep q pc' hsrc hdst hq hqs hqd hne hpc' hlast hdr hboard =>
+    have h3 : s ≠ q := by
+      intro e; rw [e, hq] at hb
+      simp only [Option.some.injEq, Prod.mk.injEq] at hb
+      exact hpc hb.1.symm
+    rw [hboard, upd_other _ _ h2, upd_other _ _ h1, upd_other _ _ h3, hb]
+  | castle r t hsrc hsrcr hsrcf hdst hr ht hrr htr hrs hrd hts htd htr' hne hboard =>
+    have hd : d ≠ p.stm := by
+      intro e; subst e
+      apply hk
+      unfold homeSq
+      rw [sq?_eq_some]
+      have := Sq.rank_bounds m.src
+      omega
+    have hrk : s.rank = d.homeRank := by
+      unfold homeSq at hh; rw [sq?_eq_some] at hh; exact hh.2.2.2.2.2
+    have hrn := homeRank_ne hd
+    have h3 : s ≠ r := by intro e; rw [e] at hrk; omega
+    have h4 : s ≠ t := by intro e; rw [e] at hrk; omega
+    rw [hboard, upd_other _ _ h2, upd_other _ _ h1, upd_other _ _ h3, upd_other _ _ h4, hb]
+
+theorem home_any_preserved {p : Pos} {m : Move} (hs : Shape p m) {d : Color} {f : Int} {pc : Piece}
+    (hk : homeSq d 4 ≠ some m.src) (h1 : homeSq d f ≠ some m.src) (h2 : homeSq d f ≠ some m.dst)
+    (hpc : pc ≠ .pawn) (hb : (homeSq d f).any (p.has · pc d) = true) :
+    (homeSq d f).any ((apply p m).has · pc d) = true := by
+  cases hh : homeSq d f with
+  | none => rw [hh] at hb; cases hb
+  | some s =>
+    rw [hh] at hb h1 h2
+    simp only [Option.any_some, Pos.has, beq_iff_eq] at hb ⊢
+    exact home_preserved hs hk hh (fun e => h1 (by rw [e])) (fun e => h2 (by rw [e])) hb hpc
+
+/-- (d) castling rights remain backed by king and rook on their home squares -/
+theorem step_ck {p : Pos} {m : Move} (hv : ValidP p) (h : pseudoLegal p m = true) (d : Color)
+    (hc : (apply p m).castleK d = true) :
+    (homeSq d 4).any ((apply p m).has · .king d) = true ∧ (homeSq d 7).any ((apply p m).has · .rook d) = true := by
+  obtain ⟨h0, h1, h2, h3, h4⟩ := apply_castleK.mp hc
+  have hs := pseudoLegal_shape h
+  obtain ⟨a, b⟩ := hv.ck d h0
+  exact ⟨home_any_preserved hs h1 h1 h2 (by decide) a, home_any_preserved hs h1 h3 h4 (by decide) b⟩
+
+theorem step_cq {p : Pos} {m : Move} (hv : ValidP p) (h : pseudoLegal p m = true) (d : Color)
+    (hc : (apply p m).castleQ d = true) :
+    (homeSq d 4).any ((apply p m).has · .king d) = true ∧ (homeSq d 0).any ((apply p m).has · .rook d) = true := by
+  obtain ⟨h0, h1, h2, h3, h4⟩ := apply_castleQ.mp hc
+  have hs := pseudoLegal_shape h
+  obtain ⟨a, b⟩ := hv.cq d h0
+  exact ⟨home_any_preserved hs h1 h1 h2 (by decide) a, home_any_preserved hs h1 h3 h4 (by decide) b⟩
+
+theorem fwd_abs (c : Color) : c.fwd = 1 ∨ c.fwd = -1 := by cases c <;> simp [Color.fwd]
+
+/-- (f) the en-passant mark set by `apply` satisfies `epValid` -/
+theorem step_ep {p : Pos} {m : Move} (hv : ValidP p) (h : pseudoLegal p m = true) :
+    epValid (apply p m) = true := by
+  cases hds : isDoubleStep p m with
+  | false => simp [epValid, apply, hds]
+  | true =>
+    have hep : (apply p m).ep = some m.dst := by simp [apply, hds]
+    have hstm : (apply p m).stm = p.stm.other := rfl
+    simp only [isDoubleStep, Bool.and_eq_true, beq_iff_eq] at hds
+    obtain ⟨hpw, hdr2⟩ := hds
+    have hfw := fwd_abs p.stm
+    cases pseudoLegal_shape h with
+    | ep q pc' hsrc hdst hq hqs hqd hne hpc hlast hdr hboard => omega
+    | castle r t hsrc => rw [hsrc] at hpw; simp at hpw
+    | normal pc pc' hsrc hdst hne hpc hatk hpawn hboard =>
+      have hpc0 : pc = .pawn := by
+        rw [hsrc] at hpw; cases pc <;> simp at hpw ⊢
+      subst hpc0
+      obtain ⟨_, hstep⟩ := hpawn rfl
+      rcases hstep with hstep | ⟨hdr, hsr, hfile, hdn, hpc', x, hx, hxe⟩
+      · omega
+      subst hpc'
+      have hx' := sq?_eq_some.mp hx
+      have h1 : sq? m.dst.file (m.dst.rank - p.stm.fwd) = some x := by
+        rw [sq?_eq_some]; omega
+      have h2 : sq? m.dst.file p.stm.pawnRank = some m.src := by
+        rw [sq?_eq_some]
+        have := Sq.file_bounds m.src; have := Sq.rank_bounds m.src
+        omega
+      have hxs : x ≠ m.src := by intro e; rw [e] at hx'; omega
+      have hxd : x ≠ m.dst := by intro e; rw [e] at hx'; omega
+      have b1 : (apply p m).board m.dst = some (.pawn, p.stm) := by rw [hboard, upd_same]
+      have b2 : (apply p m).board x = none := by rw [hboard, upd_other _ _ hxd, upd_other _ _ hxs, hxe]
+      have b3 : (apply p m).board m.src = none := by rw [hboard, upd_other _ _ hne, upd_same]
+      have hB : (fun s => if (s == m.src) = true then some (Piece.pawn, p.stm)
+          else if (s == m.dst) = true then none else (apply p m).board s) = p.board := by
+        funext s
+        by_cases e1 : s = m.src
+        · simp [e1, hsrc]
+        · by_cases e2 : s = m.dst
+          · simp [e2, hdn, Ne.symm hne]
+          · simp only [beq_iff_eq, e1, e2, if_false]
+            rw [hboard, upd_other _ _ e2, upd_other _ _ e1]
+      simp only [epValid, hep, hstm, Color.other_other, h1, h2, Pos.has, Pos.empty, b1, b2, b3]
+      rw [inCheck_mk _ _ _ _ _ _ p hB, hv.notInCheck]
+      simp
+      omega
+
+/-- (b) the bounds on men and pawns survive because the counts never grow -/
+theorem validP_step {p : Pos} {m : Move} (hv : ValidP p) (hl : legal p m = true) : ValidP (apply p m) := by
+  simp only [legal, Bool.and_eq_true, Bool.not_eq_true'] at hl
+  obtain ⟨hpl, hchk⟩ := hl
+  refine ⟨step_kings hv hpl, ?_, ?_, step_ck hv hpl, step_cq hv hpl, step_noPawn hv hpl, ?_, step_ep hv hpl⟩
+  · intro c; exact Nat.le_trans (men_shrink hpl c) (hv.men c)
+  · intro c; exact Nat.le_trans (pawns_shrink hpl c) (hv.pawns c)
+  · show inCheck (apply p m) p.stm.other.other = false
+    rw [Color.other_other]; exact hchk
+
+/-! ### the recording policy `norm` -/
+
+@[simp] theorem norm_board (p : Pos) : (norm p).board = p.board := rfl
+@[simp] theorem norm_stm (p : Pos) : (norm p).stm = p.stm := rfl
+@[simp] theorem norm_castleK (p : Pos) : (norm p).castleK = p.castleK := rfl
+@[simp] theorem norm_castleQ (p : Pos) : (norm p).castleQ = p.castleQ := rfl
+
+theorem norm_ep_cases (p : Pos) : (norm p).ep = p.ep ∨ (norm p).ep = none := by
+  unfold norm
+  cases p.ep with
+  | none => exact Or.inl rfl
+  | some q =>
+    simp only []
+    split
+    · exact Or.inl rfl
+    · exact Or.inr rfl
+
+theorem epValid_norm {p : Pos} (h : epValid p = true) : epValid (norm p) = true := by
+  rcases norm_ep_cases p with e | e
+  · unfold epValid at h ⊢
+    rw [e]
+    exact h
+  · unfold epValid
+    rw [e]
+
+theorem validP_norm {p : Pos} (hv : ValidP p) : ValidP (norm p) :=
+  ⟨hv.king, hv.men, hv.pawns, hv.ck, hv.cq, hv.noPawn,
+    (inCheck_congr (norm_board p) _).trans hv.notInCheck, epValid_norm hv.ep⟩
+
+theorem apply_norm (p : Pos) (m : Move) : apply (norm p) m = apply p m := rfl
+
 end Closure
 end Chess
